@@ -49,7 +49,7 @@ Inductive ptrans :=
 Inductive opt := OPlain | OAdd | ODivide | OBoth | OUnknown.
 
 Inductive binop := BAdd | BSub | BMul | BMin | BMax | BLt | BLe | BEq | BAnd | BOr.
-Inductive gagg := GSum | GAny | GAll.
+Inductive gagg := GSum | GAny | GAll | GFromPerson.   (* GFromPerson: group.value_from_person(a, role), default 0 *)
 Inductive pfield := FYear | FMonth | FDay | FSize.
 
 Inductive expr :=
@@ -189,6 +189,11 @@ Definition agg (pp : popu) (g : gagg) (role : option nat) (a : val) : res val :=
   | GSum => Group.sum (grp pp) a role
   | GAny => rmap (map b2z) (Group.any (grp pp) a role)
   | GAll => rmap (map b2z) (Group.all (grp pp) a role)
+  | GFromPerson =>
+      match role with
+      | Some r => Group.value_from_person (grp pp) a r 0
+      | None => Err EOther           (* role.max on None: AttributeError *)
+      end
   end.
 
 (** * The generic evaluator *)
